@@ -213,6 +213,8 @@ pub fn parse_sctp(p: &[u8]) -> PacketView {
 
 #[derive(Clone, Debug, PartialEq)]
 pub enum FaultKind {
+    /// every transmission of the addressed DATA chunk is lost (content-addressed, persistent)
+    DropAll,
     Drop,
     Dup,
     Hold,
@@ -252,6 +254,7 @@ pub fn ctype_of(name: &str) -> u8 {
 pub fn fault_from_json(v: &Value) -> Fault {
     let kind = match v["kind"].as_str().unwrap_or("") {
         "drop" => FaultKind::Drop,
+        "dropall" => FaultKind::DropAll,
         "dup" => FaultKind::Dup,
         "hold" => FaultKind::Hold,
         "duplate" => FaultKind::DupLate,
@@ -466,7 +469,12 @@ impl Proxy {
             });
             let mut hit = None;
             for (i, f) in st.faults.iter().enumerate() {
-                if !f.used && f.dir == dir && types.contains(&f.ctype) && hits(f.ctype, f.ord, f.tsn_rel, &st) {
+                let persistent = f.kind == FaultKind::DropAll
+                    && f.dir == dir
+                    && f.tsn_rel.map(|r| rels.iter().any(|(x, _)| *x == r)).unwrap_or(false);
+                if persistent
+                    || (!f.used && f.dir == dir && types.contains(&f.ctype) && hits(f.ctype, f.ord, f.tsn_rel, &st))
+                {
                     hit = Some(i);
                     break;
                 }
@@ -477,7 +485,7 @@ impl Proxy {
                 st.faults_applied += 1;
                 let f = st.faults[i].clone();
                 action = match f.kind {
-                    FaultKind::Drop => "drop",
+                    FaultKind::Drop | FaultKind::DropAll => "drop",
                     FaultKind::Dup => "dup",
                     FaultKind::Hold => "hold",
                     FaultKind::DupLate => "duplate",
